@@ -150,6 +150,22 @@ func oracleC20(s scenario, run *demuxRun) string {
 		}
 	}
 	fresh := runScenario(scenario{kind: 1, optSize: s.optSize, fault: -1, data: s.data, ops: []int{3}})
+	// every Rewind, not only the last one: the calls that follow it, up to the next Rewind, return what the first calls
+	// of a fresh Demuxer return (NextData calls only; the history before the final op is one result per op)
+	for i := 0; i < lastRw; i++ {
+		if s.ops[i] != 2 {
+			continue
+		}
+		k := 0
+		for j := i + 1; j < lastRw && s.ops[j] == 1; j++ {
+			if j < len(run.results) && k < len(fresh.results) {
+				if a, b := run.results[j].At(0).String(), fresh.results[k].At(0).String(); a != b {
+					return fmt.Sprintf("call %d after the Rewind at step %d differs from call %d of a fresh Demuxer: %s vs %s", k+1, i, k+1, c12Clip(a), c12Clip(b))
+				}
+			}
+			k++
+		}
+	}
 	var after []string
 	for i := lastRw + 1; i < len(run.results); i++ {
 		after = append(after, run.results[i].At(0).String())
